@@ -66,6 +66,10 @@ for t1 in DTYPS:
     for t2 in DTYPS:
         G('da.dt_ddiff.D.%s.%s' % (t1[3:], t2[3:]), 'date-core', 'dt_ddiff', ['C05', 'C11'], ins=[(U, 'in_t1'), ('uint32_t', 'in_u1'), (U, 'in_t2'), ('uint32_t', 'in_u2'), ('int', 'in_carry')],
           fix={'in_t1': t1, 'in_t2': t2}, setup='struct dt_d_s d1 = {DT_DUNK}; d1.typ = (dt_dtyp_t)in_t1; d1.u = in_u1; struct dt_d_s d2 = {DT_DUNK}; d2.typ = (dt_dtyp_t)in_t2; d2.u = in_u2;',
-          call='dt_ddiff(DT_DURD, d1, d2, in_carry)', ret='struct dt_ddur_s', replace=['dt_conv_to_daisy'], solvers=SV,
+          call='dt_ddiff(DT_DURD, d1, d2, in_carry)', ret='struct dt_ddur_s', replace=['dt_conv_to_daisy', '__get_nbdays', '__daisy_get_wday'], solvers=SV,
           tier='quick' if t1 == t2 or (t1, t2) in (('DT_YMD', 'DT_DAISY'), ('DT_YD', 'DT_YMD')) else 'thorough',
           sweep={'in_u1': 'RND', 'in_u2': 'RND'})
+G('da.dt_ddiff.BD.DAISY', 'date-core', 'dt_ddiff', ['C07'], ins=[('uint32_t', 'in_u1'), ('uint32_t', 'in_u2'), ('int', 'in_carry')],
+  setup='struct dt_d_s d1 = {DT_DUNK}; d1.typ = DT_DAISY; d1.u = in_u1; struct dt_d_s d2 = {DT_DUNK}; d2.typ = DT_DAISY; d2.u = in_u2;',
+  call='dt_ddiff(DT_DURBD, d1, d2, in_carry)', ret='struct dt_ddur_s', replace=['dt_conv_to_daisy', '__get_nbdays', '__daisy_get_wday'], solvers=SV, timeout=900,
+  sweep={'in_u1': '1 + RND % 911280', 'in_u2': '1 + RND % 911280'})
